@@ -300,7 +300,19 @@ func runC01(c *Ctx) {
 				ok, why = false, "the entry must be stamped before nextSeq is advanced"
 				break
 			}
-			if !(app[0].Gen < up[0].Gen) || len(up[0].Args) != 1 || !strings.Contains(strings.ReplaceAll(up[0].Args[0], " ", ""), "events)-1") {
+			lastIdx := false
+			if call, isCall := up[0].Node.(*ast.CallExpr); isCall && len(call.Args) == 1 {
+				if be, isBin := ast.Unparen(call.Args[0]).(*ast.BinaryExpr); isBin && be.Op == token.SUB {
+					if lit, isLit := ast.Unparen(be.Y).(*ast.BasicLit); isLit && lit.Value == "1" {
+						if lc, isLen := ast.Unparen(be.X).(*ast.CallExpr); isLen && len(lc.Args) == 1 {
+							if id, isID := lc.Fun.(*ast.Ident); isID && id.Name == "len" && exprIsField(p, push, lc.Args[0], evF) {
+								lastIdx = true
+							}
+						}
+					}
+				}
+			}
+			if !(app[0].Gen < up[0].Gen) || !lastIdx {
 				ok, why = false, "the appended slot (last index) must be sifted up after the append"
 				break
 			}
